@@ -480,6 +480,11 @@ func (e *Engine) replayEngine(rf *ReplayFile, m *Model) (bool, string) {
 	if len(sum.Violations) > 0 {
 		return true, "fails with " + sum.Violations[0].ID + " instead of " + rf.AssertID
 	}
+	if e.traceEvents {
+		for _, o := range sum.Observations {
+			fmt.Println("    ev:", o)
+		}
+	}
 	return false, fmt.Sprintf("no violation on concrete re-execution (outcomes %v %v)", sum.Outcomes, sum.Unsupported)
 }
 
